@@ -423,8 +423,9 @@ func (s *Stream) fillDataToReadBuffer(buf bufferSliceWrapper) error {
 	vpo(vpFillAdded, s, 0)
 	//stream had closed, which maybe closed by user due to timeout.
 	if s.getStreamState() == uint32(streamClosed) {
+		// only drop what just arrived: recvBuf may still be in use by a running OnData (close() waits for it) and is
+		// recycled by close()'s clean() afterwards anyway
 		s.pendingData.clear()
-		s.recvBuf.recycle()
 		return nil
 	}
 	vpo(vpFillBeforeNotify, s, 0)
